@@ -97,12 +97,21 @@ void orc_c03_delivery(Delivery &d) {
             SendRec &sd = W->sends[e.send_id];
             if (sd.kind == 1) {
                 // publish: the user data of a subscription of this module that matches the topic
+                // (the subscription that matched when the message was sent may have been replaced or removed since: any
+                //  subscription this module held on a matching topic since it last started qualifies)
                 bool ok = false, any = false;
-                for (auto &kv : s.subs) {
-                    bool m = kv.first == sd.topic || (kv.second.re_ok && regexec(&kv.second.re, sd.topic.c_str(), 0, nullptr, 0) == 0);
+                for (auto &h : s.sub_history) {
+                    regex_t re;
+                    bool m = h.first == sd.topic;
+                    if (!m && regcomp(&re, h.first.c_str(), REG_NOSUB) == 0) { m = regexec(&re, sd.topic.c_str(), 0, nullptr, 0) == 0; regfree(&re); }
                     if (!m) continue;
                     any = true;
-                    if (kv.second.ud == e.ud) ok = true;
+                    if (h.second == e.ud) ok = true;
+                }
+                if (ok && !d.in_unstash && s.oneshot_sub_uds.count(e.ud)) {
+                    oracle_eval("C03.oneshot-once");
+                    if (std::count(s.oneshot_fired.begin(), s.oneshot_fired.end(), e.ud))
+                        VIOL("C03", "C03:oneshot-fired-twice:ps", "one-shot subscription of module slot %d delivered a second message ('%s')", d.slot, sd.topic.c_str());
                 }
                 if (!any && !d.in_unstash) VIOL("C03", "C03:event-unknown-source:ps", "module slot %d received a publish on '%s' without a matching subscription", d.slot, sd.topic.c_str());
                 if (any && !ok && !d.in_unstash) {
